@@ -1,6 +1,6 @@
 (* ConfigAcceptProofs.v — the exact accept set of the validation model (converse of c16_sound).  Kept apart from
-   ConfigProofs.v on purpose: these lemmas break when validation becomes STRICTER or loses a redundant rule, which does
-   not violate C16, so nothing that gates `bin/check C16` may depend on this file. *)
+   ConfigProofs.v: these lemmas describe the model EXACTLY (they break when a rule is added to `model_rules` or a
+   redundant one removed, which does not violate C16), so nothing that gates `bin/check C16` depends on this file. *)
 From Coq Require Import String ZArith List Bool Lia.
 Require Import ZifyBool.
 From Esc Require Import SpecConfig proofs.ConfigProofs.
